@@ -447,7 +447,15 @@ def t2(ctx):
         r3.inst('iter-site:' + key, {'site': key, 'body': body})
         if st == "Iter<'a>" and f['name'] == 'new':
             if not iter_built(f, reversed_times=1, from_self=False):
-                r3.fail('%s:Iter::new' % CRATE, '%s/src/any_node.rs' % CRATE, 'Iter::new must reverse the list once before storing it; found %s' % body)
+                # other spellings (the list destructured first, `.rev().collect()`): decided by the number of reversals — none is WRONG (children
+                # would be visited last-to-first), exactly one with a single Iter{..} literal is an unrecognised but plausible form
+                revs_ = [n_ for n_ in sx.walk(f['body']) if n_.get('k') == 'mcall' and n_['m'] in ('reverse', 'rev')]
+                lits_ = [n_ for n_ in sx.walk(f['body']) if n_.get('k') == 'struct' and n_['p'] == 'Iter']
+                extra_ = [n_ for n_ in sx.walk(f['body']) if n_.get('k') == 'mcall' and n_['m'] in ('push', 'pop', 'insert', 'remove', 'truncate', 'sort', 'swap', 'drain', 'retain', 'clear')]
+                if len(revs_) == 1 and len(lits_) == 1 and not extra_ and len(lits_[0]['fields']) == 1:
+                    r3.undecided('%s:Iter::new' % CRATE, '%s/src/any_node.rs' % CRATE, 'Iter::new reverses once but is not in the recognised form: %s' % body)
+                else:
+                    r3.fail('%s:Iter::new' % CRATE, '%s/src/any_node.rs' % CRATE, 'Iter::new must reverse the list once before storing it; found %s' % body)
         elif st == "&'aLocate" and f['name'] == 'into_iter':
             if not iter_built(f, reversed_times=0, from_self=True):
                 r3.fail('%s:Locate::into_iter' % CRATE, '%s/src/lib.rs' % CRATE, '&Locate::into_iter: single-leaf list expected; found %s' % body)
